@@ -38,7 +38,9 @@ PipelineEv ==
           ELSE LET d == e.decoded
                    df == Diff(exp, ObsTx(d))
                    wf == WellFormedReason(d, net)
-               IN  IF df.field # "ok" THEN Flag("field", df)
+               IN  \* (a payload that a standard decoder refuses is malformed before it is anything else: C10)
+                   IF ~d.decodes THEN Flag("malformed", [reason |-> "not-conway", what |-> ""])
+                   ELSE IF df.field # "ok" THEN Flag("field", df)
                    ELSE IF \E t \in TreesOf(d) : ~FramingOK(t) THEN Flag("framing", [field |-> "plutus-data"])
                    ELSE IF wf # "ok" THEN Flag("malformed", [reason |-> wf,
                                                          what |-> IF wf = "empty-entry" THEN d.empties[1]
